@@ -507,3 +507,395 @@ Proof.
   specialize (H _ Hin). unfold kind_ok in H. cbn [fst snd] in H.
   destruct rs as [rs'|]; [|discriminate]. exists rs'. split; [reflexivity|]. apply covers_sound. exact H.
 Qed.
+
+(* ------------------------------------------------------------------ field-level round trip *)
+Local Open Scope list_scope.
+Section SerProofs.
+  Variable P : Type.
+  Notation value := (value P).
+  Notation obj := (obj P).
+
+  Lemma lookup_app : forall k (a b : list (key * value)),
+    lookup k (a ++ b) = match lookup k b with Some x => Some x | None => lookup k a end.
+  Proof.
+    intros k a b. induction a as [|[k' v] a IH]; simpl.
+    - destruct (lookup k b); reflexivity.
+    - rewrite IH. destruct (lookup k b); [reflexivity|]. reflexivity.
+  Qed.
+
+  Lemma lookup_fam_gen : forall pre pre' i (l : list P) s,
+    lookup (KIdx pre i) (map (fun ip => (KIdx pre' (fst ip), VPay (snd ip))) (combine (seq s (List.length l)) l)) =
+    if String.eqb pre pre' then (if Nat.leb s i then option_map VPay (nth_error l (i - s)) else None) else None.
+  Proof.
+    intros pre pre' i l. induction l as [|x l IH]; intros s.
+    - cbn [List.length seq combine map lookup]. destruct (String.eqb pre pre'); [|reflexivity].
+      destruct (Nat.leb s i); [|reflexivity]. destruct (i - s); reflexivity.
+    - cbn [List.length seq combine map lookup fst snd]. rewrite IH. cbn [key_eqb].
+      destruct (String.eqb pre pre') eqn:E; cbn [andb]; [|reflexivity].
+      destruct (Nat.leb_spec (S s) i) as [H1|H1]; destruct (Nat.leb_spec s i) as [H2|H2];
+        destruct (Nat.eqb_spec i s) as [H3|H3]; try lia.
+      + replace (i - s) with (S (i - S s)) by lia. cbn [nth_error].
+        destruct (nth_error l (i - S s)); reflexivity.
+      + subst i. rewrite Nat.sub_diag. reflexivity.
+      + reflexivity.
+  Qed.
+
+  Lemma lookup_emit_fam : forall pre pre' i (l : list P),
+    lookup (KIdx pre i) (emit_fam pre' l) = if String.eqb pre pre' then option_map VPay (nth_error l i) else None.
+  Proof.
+    intros. unfold emit_fam. rewrite lookup_fam_gen. simpl. rewrite Nat.sub_0_r. reflexivity.
+  Qed.
+
+  Lemma lookup_const_fam : forall k pre (l : list P), lookup (KConst k) (emit_fam pre l) = None.
+  Proof.
+    intros k pre l. unfold emit_fam. generalize (seq 0 (List.length l)). intros sq. revert sq.
+    induction l as [|x l IH]; intros [|j sq]; simpl; try reflexivity. rewrite IH. reflexivity.
+  Qed.
+
+  Definition cval (m : obj) (e : dentry) : value :=
+    match e with
+    | DConstStr _ s => VStr s
+    | DNSites _ => VNat (List.length (o_tensors m))
+    | DScalar _ a => o_scalar m a
+    | DLabelList _ => VList (o_labels m)
+    | _ => VStr EmptyString
+    end.
+
+  Lemma lookup_const_emit : forall (m : obj) e k,
+    lookup (KConst k) (emit m e) = if owns_const e k then Some (cval m e) else None.
+  Proof.
+    intros m e k. destruct e; simpl; try (destruct (String.eqb k k0); reflexivity);
+      apply lookup_const_fam.
+  Qed.
+
+  Lemma lookup_const_dump : forall (m : obj) dm k,
+    lookup (KConst k) (dump dm m) = option_map (cval m) (writer_const dm k).
+  Proof.
+    intros m dm k. induction dm as [|e dm IH]; [reflexivity|].
+    unfold dump in *. cbn [flat_map writer_const]. rewrite lookup_app, IH.
+    destruct (writer_const dm k); [reflexivity|]. simpl. rewrite lookup_const_emit.
+    destruct (owns_const e k); reflexivity.
+  Qed.
+
+  Lemma lookup_idx_emit_other : forall (m : obj) e pre i, owns_fam e pre = false -> lookup (KIdx pre i) (emit m e) = None.
+  Proof.
+    intros m e pre i H. destruct e; simpl in *; try reflexivity; rewrite lookup_emit_fam, H; reflexivity.
+  Qed.
+
+  Lemma lookup_idx_dump_none : forall (m : obj) dm pre i, fam_writers dm pre = [] -> lookup (KIdx pre i) (dump dm m) = None.
+  Proof.
+    intros m dm pre i. induction dm as [|e dm IH]; intros H; [reflexivity|].
+    unfold fam_writers in *. cbn [filter] in H. unfold dump in *. cbn [flat_map]. rewrite lookup_app.
+    destruct (owns_fam e pre) eqn:E; [discriminate|]. rewrite (IH H). apply lookup_idx_emit_other. exact E.
+  Qed.
+
+  Lemma lookup_idx_dump : forall (m : obj) dm pre i w, fam_writers dm pre = [w] ->
+    lookup (KIdx pre i) (dump dm m) = lookup (KIdx pre i) (emit m w).
+  Proof.
+    intros m dm pre i w. induction dm as [|e dm IH]; intros H; [discriminate|].
+    unfold fam_writers in *. cbn [filter] in H. unfold dump in *. cbn [flat_map]. rewrite lookup_app.
+    destruct (owns_fam e pre) eqn:E.
+    - injection H as H1 H2. subst e. fold (fam_writers dm pre) in H2.
+      pose proof (lookup_idx_dump_none m dm pre i H2) as Hn. unfold dump in Hn. rewrite Hn. reflexivity.
+    - rewrite (IH H). rewrite (lookup_idx_emit_other m e pre i E).
+      destruct (lookup (KIdx pre i) (emit m w)); reflexivity.
+  Qed.
+
+  Lemma mapM_seq : forall (f : nat -> option P) (l : list P) s,
+    (forall i, i < List.length l -> f (s + i) = nth_error l i) -> mapM f (seq s (List.length l)) = Some l.
+  Proof.
+    intros f l. induction l as [|x l IH]; intros s H; [reflexivity|].
+    simpl. pose proof (H 0 ltac:(simpl; lia)) as H0. rewrite Nat.add_0_r in H0. simpl in H0. rewrite H0. simpl.
+    rewrite IH; [reflexivity|]. intros i Hi. replace (S s + i) with (s + S i) by lia. apply (H (S i)). simpl. lia.
+  Qed.
+
+  Definition wf (lm : list lentry) (loff : nat) (m : obj) : Prop :=
+    List.length (o_labels m) = List.length (o_tensors m) + loff /\
+    forall a k c, In (LScalar a k c) lm -> conv_apply c (o_scalar m a) = Some (o_scalar m a).
+
+  Section Fixed.
+    Variables (dm : list dentry) (lm0 : list lentry) (loff : nat) (m : obj).
+    Hypothesis Hwf : wf lm0 loff m.
+
+    Let d := dump dm m.
+    Let n := List.length (o_tensors m).
+
+    Lemma versions_ok_dump : forall lm, forallb (lentry_ok dm loff) lm = true -> versions_ok P lm d = true.
+    Proof.
+      induction lm as [|e lm IH]; intros H; [reflexivity|].
+      cbn [forallb] in H. apply andb_true_iff in H. destruct H as [He H].
+      destruct e; cbn [versions_ok]; try (apply IH; exact H).
+      unfold d. rewrite lookup_const_dump. cbn [lentry_ok] in He.
+      destruct (writer_const dm k) as [[]|]; try discriminate. simpl. rewrite He. simpl. apply IH. exact H.
+    Qed.
+
+    Lemma load_nsites_dump : forall lm, forallb (lentry_ok dm loff) lm = true -> has_nsites lm = true ->
+      load_nsites P lm d = Some n.
+    Proof.
+      induction lm as [|e lm IH]; intros H Hh; [discriminate|].
+      cbn [forallb] in H. apply andb_true_iff in H. destruct H as [He H].
+      unfold has_nsites in *. cbn [existsb] in Hh.
+      destruct e; cbn [load_nsites]; try (apply IH; [exact H|exact Hh]).
+      unfold read, d. rewrite lookup_const_dump. cbn [lentry_ok] in He.
+      destruct (writer_const dm k) as [[]|]; try discriminate. simpl. destruct c; try discriminate; reflexivity.
+    Qed.
+
+    Lemma load_tensors_dump : forall lm, forallb (lentry_ok dm loff) lm = true -> has_tensors lm = true ->
+      load_tensors P lm d n = Some (o_tensors m).
+    Proof.
+      induction lm as [|e lm IH]; intros H Hh; [discriminate|].
+      cbn [forallb] in H. apply andb_true_iff in H. destruct H as [He H].
+      unfold has_tensors in *. cbn [existsb] in Hh.
+      destruct e; cbn [load_tensors]; try (apply IH; [exact H|exact Hh]).
+      cbn [lentry_ok] in He. destruct (fam_writers dm pre) as [|w [|w' ws]] eqn:Ew; try discriminate;
+        destruct w; try discriminate.
+      assert (Ep : pre0 = pre).
+      { assert (Hin : In (DTensorFam pre0) (fam_writers dm pre)) by (rewrite Ew; left; reflexivity).
+        unfold fam_writers in Hin. apply filter_In in Hin. destruct Hin as [_ Ho]. simpl in Ho.
+        apply String.eqb_eq in Ho. symmetry. exact Ho. }
+      subst pre0. unfold n. apply mapM_seq. intros i Hi. simpl.
+      unfold d. rewrite (lookup_idx_dump m dm pre i _ Ew). cbn [emit]. rewrite lookup_emit_fam, String.eqb_refl.
+      destruct (nth_error (o_tensors m) i); reflexivity. 
+    Qed.
+
+    Lemma firstn_labels : firstn (n + loff) (o_labels m) = o_labels m.
+    Proof. destruct Hwf as [Hl _]. apply firstn_all2. unfold n. lia. Qed.
+
+    Lemma load_labels_dump : forall lm, forallb (lentry_ok dm loff) lm = true -> has_labels lm = true ->
+      load_labels P lm d n = Some (o_labels m).
+    Proof.
+      induction lm as [|e lm IH]; intros H Hh; [discriminate|].
+      cbn [forallb] in H. apply andb_true_iff in H. destruct H as [He H].
+      unfold has_labels in *. cbn [existsb] in Hh.
+      destruct e; cbn [load_labels]; try (apply IH; [exact H|exact Hh]).
+      - (* whole list under one key *)
+        unfold read, d. rewrite lookup_const_dump. cbn [lentry_ok] in He.
+        destruct (writer_const dm k) as [[]|]; try discriminate. simpl. destruct c; try discriminate. reflexivity.
+      - (* one key per bond / node *)
+        cbn [lentry_ok] in He. destruct (fam_writers dm pre) as [|w [|w' ws]] eqn:Ew; try discriminate;
+          destruct w; try discriminate.
+        apply andb_true_iff in He. destruct He as [He Hc]. apply andb_true_iff in He. destruct He as [E1 E2].
+        apply Nat.eqb_eq in E1. apply Nat.eqb_eq in E2. subst off0. subst off.
+        assert (Ep : pre0 = pre).
+        { assert (Hin : In (DLabelFam pre0 loff) (fam_writers dm pre)) by (rewrite Ew; left; reflexivity).
+          unfold fam_writers in Hin. apply filter_In in Hin. destruct Hin as [_ Ho]. simpl in Ho.
+          apply String.eqb_eq in Ho. symmetry. exact Ho. }
+        subst pre0. destruct Hwf as [Hl _]. fold n in Hl. rewrite <- Hl. apply mapM_seq. intros i Hi. simpl.
+        unfold read, d. rewrite (lookup_idx_dump m dm pre i _ Ew). cbn [emit]. fold n. rewrite firstn_labels.
+        rewrite lookup_emit_fam, String.eqb_refl.
+        destruct (nth_error (o_labels m) i); [|reflexivity]. simpl. destruct c; try discriminate; reflexivity.
+    Qed.
+
+    Lemma load_scalars_dump : forall lm, forallb (lentry_ok dm loff) lm = true -> incl lm lm0 ->
+      exists sc, load_scalars P lm d = Some sc /\ map fst sc = scalar_attrs lm /\
+                 Forall (fun av => snd av = o_scalar m (fst av)) sc.
+    Proof.
+      induction lm as [|e lm IH]; intros H Hi.
+      - exists []. repeat split; constructor.
+      - cbn [forallb] in H. apply andb_true_iff in H. destruct H as [He H].
+        assert (Hi' : incl lm lm0) by (intros x Hx; apply Hi; right; exact Hx).
+        destruct (IH H Hi') as (sc & Hsc & Hf & Hv).
+        destruct e; cbn [load_scalars scalar_attrs flat_map]; try (exists sc; repeat split; assumption).
+        cbn [lentry_ok] in He. unfold read. replace (lookup (KConst k) d) with (option_map (cval m) (writer_const dm k))
+          by (unfold d; symmetry; apply lookup_const_dump).
+        destruct (writer_const dm k) as [[]|]; try discriminate.
+        apply andb_true_iff in He. destruct He as [Ea Hc]. apply String.eqb_eq in Ea. subst a0.
+        cbn [option_map bind cval]. destruct Hwf as [_ Hconv]. rewrite (Hconv a k c (Hi _ (or_introl eq_refl))).
+        cbn [bind]. rewrite Hsc. cbn [bind].
+        exists ((a, o_scalar m a) :: sc). split; [reflexivity|]. split; [simpl; rewrite Hf; reflexivity|].
+        constructor; [reflexivity|exact Hv].
+    Qed.
+  End Fixed.
+
+  Lemma assoc_found : forall (m : obj) sc a, In a (map fst sc) ->
+    Forall (fun av : string * value => snd av = o_scalar m (fst av)) sc -> assoc P a sc = Some (o_scalar m a).
+  Proof.
+    intros m sc a. induction sc as [|[b v] sc IH]; intros Hin Hf; [contradiction|].
+    inversion Hf as [|x l Hx Hl]; subst. simpl in *. destruct (String.eqb a b) eqn:E.
+    - apply String.eqb_eq in E. subst b. rewrite Hx. reflexivity.
+    - destruct Hin as [Hb|Hin]; [subst b; rewrite String.eqb_refl in E; discriminate|]. apply IH; assumption.
+  Qed.
+
+  Theorem load_dump_fields_gen : forall dm lm loff dflt, maps_ok dm lm loff = true ->
+    forall m : obj, wf lm loff m ->
+    exists m', load lm dflt (dump dm m) = Some m' /\
+      o_tensors m' = o_tensors m /\ o_labels m' = o_labels m /\
+      forall a, In a (scalar_attrs lm) -> o_scalar m' a = o_scalar m a.
+  Proof.
+    intros dm lm loff dflt Hok m Hwf. unfold maps_ok in Hok.
+    repeat (apply andb_true_iff in Hok; destruct Hok as [Hok ?]).
+    destruct (load_scalars_dump dm lm loff m Hwf lm Hok (incl_refl _)) as (sc & Hsc & Hf & Hv).
+    eexists. unfold load.
+    rewrite (versions_ok_dump dm loff m lm Hok).
+    rewrite (load_nsites_dump dm loff m lm Hok) by assumption. cbn [bind].
+    rewrite (load_tensors_dump dm loff m lm Hok) by assumption. cbn [bind].
+    rewrite (load_labels_dump dm lm loff m Hwf lm Hok) by assumption. cbn [bind].
+    rewrite Hsc. cbn [bind]. split; [reflexivity|]. cbn [o_tensors o_labels o_scalar].
+    split; [reflexivity|]. split; [reflexivity|].
+    intros a Ha. rewrite <- Hf in Ha. rewrite (assoc_found m sc a Ha Hv). reflexivity.
+  Qed.
+End SerProofs.
+
+(* ------------------------------------------------------------------ generated field maps *)
+Lemma field_kinds_checked :
+  forallb (fun k => maps_ok (snd (fst (fst k))) (snd (fst k)) (snd k)) field_kinds = true.
+Proof. vm_compute. reflexivity. Qed.
+
+Theorem fields_roundtrip_gen : forall kind dm lm loff, In (kind, dm, lm, loff) field_kinds ->
+  forall (P : Type) (dflt : string -> value P) (m : obj P), wf P lm loff m ->
+  exists m', load lm dflt (dump dm m) = Some m' /\
+    o_tensors m' = o_tensors m /\ o_labels m' = o_labels m /\
+    forall a, In a (scalar_attrs lm) -> o_scalar m' a = o_scalar m a.
+Proof.
+  intros kind dm lm loff Hin P dflt m Hwf. pose proof field_kinds_checked as H. rewrite forallb_forall in H.
+  specialize (H _ Hin). cbn [fst snd] in H. exact (load_dump_fields_gen P dm lm loff dflt H m Hwf).
+Qed.
+
+(* ------------------------------------------------------------------ side files *)
+Lemma find_unsafe_sound : forall d proto W st h,
+  find_unsafe d proto W st = Some h -> safe_b W (run_history proto h st) = false.
+Proof.
+  induction d as [|d IH]; intros proto W st h H; cbn [find_unsafe] in H;
+    destruct (safe_b W st) eqn:E; cbn [negb] in H.
+  - discriminate.
+  - injection H as <-. exact E.
+  - revert H. generalize (crash_points proto st). intros l. induction l as [|a l IHl]; intros H; [discriminate|].
+    destruct (find_unsafe d proto W (step_attempt proto st a)) as [h'|] eqn:E'.
+    + injection H as <-. change (run_history proto (a :: h') st) with (run_history proto h' (step_attempt proto st a)).
+      apply IH. exact E'.
+    + apply IHl. exact H.
+  - injection H as <-. exact E.
+Qed.
+
+(* whatever the history, an un-killed dump leaves every side file holding the state of that very dump *)
+Lemma post_inv_sound : forall proto np ps I, check_post_inv proto np ps I = true ->
+  forall h p, In p ps ->
+    let st := run_history proto h (init_state np) in
+    cell_at Absent (h_fs (step_attempt proto st None)) p = Complete (h_next st).
+Proof.
+  intros proto np ps I H h p Hp st. unfold check_post_inv in H. apply andb_true_iff in H. destruct H as [Hc Hpost].
+  destruct (history_in_inv0 proto np I Hc h) as (x & Hx & Hrel). fold st in Hrel.
+  unfold inv_post in Hpost. rewrite forallb_forall in Hpost. specialize (Hpost x Hx). cbv zeta in Hpost.
+  apply andb_true_iff in Hpost. destruct Hpost as [Hok Hcur]. rewrite forallb_forall in Hcur. specialize (Hcur p Hp).
+  apply acell_eqb_eq in Hcur.
+  destruct (run_sim proto st x Hrel) as [Ht _]. destruct Hrel as (Hfs & _ & _).
+  assert (HL : Forall2 (crel (h_fin st) (h_next st))
+                 (last (fst (crun (h_next st) proto (h_fs st))) (h_fs st))
+                 (last (fst (arun proto (fst x))) (fst x))) by (apply Forall2_last; assumption).
+  pose proof (get_rel cell acell Absent AAbs _ (cr_abs _ _) _ _ HL p) as Hc'.
+  unfold cell_at in *. rewrite Hcur in Hc'. unfold step_attempt. cbn [h_fs].
+  remember (get Absent (last (fst (crun (h_next st) proto (h_fs st))) (h_fs st)) p) as c eqn:Ec.
+  remember ACur as a eqn:Ea. destruct Hc'; try discriminate. reflexivity.
+Qed.
+
+Lemma side_files_checked :
+  forallb (fun s => check_post_inv (snd (fst s)) npaths (snd s) (reach (snd (fst s)) npaths)) side_files = true.
+Proof. vm_compute. reflexivity. Qed.
+
+Theorem side_file_current_after_return_gen : forall name proto ps, In (name, proto, ps) side_files ->
+  forall h p, In p ps ->
+    let st := run_history proto h (init_state npaths) in
+    cell_at Absent (h_fs (step_attempt proto st None)) p = Complete (h_next st).
+Proof.
+  intros name proto ps Hin. pose proof side_files_checked as H. rewrite forallb_forall in H.
+  specialize (H _ Hin). cbn [fst snd] in H. exact (post_inv_sound proto npaths ps _ H).
+Qed.
+
+(* ------------------------------------------------------------------ spill *)
+Section SpillProofs.
+  Variable P : Type.
+  Variable nbytes : P -> nat.
+
+  Lemma nth_set_slot_same : forall (l : list (slot P)) i s, i < List.length l -> nth_error (set_slot P l i s) i = Some s.
+  Proof.
+    induction l as [|x l IH]; intros [|i] s H; simpl in *; try lia; [reflexivity|]. apply IH. lia.
+  Qed.
+
+  Lemma nth_set_slot_other : forall (l : list (slot P)) i j s, i <> j -> nth_error (set_slot P l i s) j = nth_error l j.
+  Proof.
+    induction l as [|x l IH]; intros [|i] [|j] s H; simpl; try reflexivity; try lia. apply IH. lia.
+  Qed.
+
+  Lemma length_set_slot : forall (l : list (slot P)) i s, List.length (set_slot P l i s) = List.length l.
+  Proof. induction l as [|x l IH]; intros [|i] s; simpl; try reflexivity. rewrite IH. reflexivity. Qed.
+
+  (* reading back what was just stored, spilled or not *)
+  Theorem spill_roundtrip_gen : forall limit key a (st : sstate P),
+    key < List.length (s_slots st) -> getitem key (setitem nbytes limit key a st) = Some a.
+  Proof.
+    intros limit key a st H. unfold getitem, setitem, array2mt. cbn [s_slots s_disk].
+    destruct (Nat.ltb limit (nbytes a)); cbn [fst snd]; rewrite nth_set_slot_same by exact H.
+    - unfold disk_set. rewrite Nat.eqb_refl. reflexivity.
+    - reflexivity.
+  Qed.
+
+  Theorem spill_inv_preserved : forall limit key a (st : sstate P),
+    key < List.length (s_slots st) -> spill_inv st -> spill_inv (setitem nbytes limit key a st).
+  Proof.
+    intros limit key a st Hk [I1 I2].
+    assert (Hold : forall f, nth_error (s_slots st) key = Some (OnDisk f) -> f = key) by (intros f Hf; apply (I1 key f Hf)).
+    unfold setitem, array2mt. split; cbn [s_slots s_disk].
+    - intros i f Hi. destruct (Nat.eq_dec key i) as [<-|Hne].
+      + destruct (Nat.ltb limit (nbytes a)); cbn [fst snd] in *; rewrite nth_set_slot_same in Hi by exact Hk; [|discriminate].
+        injection Hi as <-. split; [reflexivity|]. unfold disk_set. rewrite Nat.eqb_refl. discriminate.
+      + assert (Hi' : nth_error (s_slots st) i = Some (OnDisk f)).
+        { destruct (Nat.ltb limit (nbytes a)); cbn [fst snd] in Hi; rewrite nth_set_slot_other in Hi by exact Hne; exact Hi. }
+        destruct (I1 i f Hi') as [-> Hd]. split; [reflexivity|].
+        assert (Hd1 : (match nth_error (s_slots st) key with
+                       | Some (OnDisk f0) => disk_set P (s_disk st) f0 None
+                       | _ => s_disk st end) i <> None).
+        { destruct (nth_error (s_slots st) key) as [[q|f0]|] eqn:Ek; try exact Hd.
+          rewrite (Hold f0 eq_refl). unfold disk_set. destruct (Nat.eqb_spec i key); [lia|exact Hd]. }
+        destruct (Nat.ltb limit (nbytes a)); cbn [fst snd]; [|exact Hd1].
+        unfold disk_set at 1. destruct (Nat.eqb_spec i key); [lia|exact Hd1].
+    - intros f Hf.
+      assert (Hcase : f = key \/ (f <> key /\ s_disk st f <> None)).
+      { destruct (Nat.eq_dec f key) as [->|Hne]; [left; reflexivity|right; split; [exact Hne|]].
+        destruct (Nat.ltb limit (nbytes a)); cbn [fst snd] in Hf.
+        - unfold disk_set at 1 in Hf. destruct (Nat.eqb_spec f key); [lia|].
+          destruct (nth_error (s_slots st) key) as [[q|f0]|]; try exact Hf.
+          unfold disk_set in Hf. destruct (Nat.eqb f f0); [contradiction|exact Hf].
+        - destruct (nth_error (s_slots st) key) as [[q|f0]|]; try exact Hf.
+          unfold disk_set in Hf. destruct (Nat.eqb f f0); [contradiction|exact Hf]. }
+      destruct Hcase as [->|[Hne Hd]].
+      + destruct (Nat.ltb limit (nbytes a)) eqn:El; cbn [fst snd] in *.
+        * apply nth_set_slot_same. exact Hk.
+        * exfalso. apply Hf. destruct (nth_error (s_slots st) key) as [[q|f0]|] eqn:Ek.
+          -- destruct (s_disk st key) eqn:Ed; [|reflexivity]. assert (Hx : s_disk st key <> None) by (rewrite Ed; discriminate).
+             rewrite (I2 key Hx) in Ek. discriminate.
+          -- rewrite (Hold f0 eq_refl). unfold disk_set. rewrite Nat.eqb_refl. reflexivity.
+          -- apply nth_error_None in Ek. lia.
+      + destruct (Nat.ltb limit (nbytes a)); cbn [fst snd]; rewrite nth_set_slot_other by lia; apply I2; exact Hd.
+  Qed.
+
+  (* the other sites are not disturbed *)
+  Theorem spill_other_sites_gen : forall limit key a (st : sstate P) j,
+    spill_inv st -> j <> key -> getitem j (setitem nbytes limit key a st) = getitem j st.
+  Proof.
+    intros limit key a st j [I1 I2] Hne. unfold getitem, setitem, array2mt. cbn [s_slots s_disk].
+    assert (E : forall s, nth_error (set_slot P (s_slots st) key s) j = nth_error (s_slots st) j)
+      by (intros s; apply nth_set_slot_other; lia).
+    destruct (Nat.ltb limit (nbytes a)); cbn [fst snd]; rewrite E;
+      destruct (nth_error (s_slots st) j) as [[q|f]|] eqn:Ej; try reflexivity.
+    - destruct (I1 j f Ej) as [-> _]. unfold disk_set at 1. destruct (Nat.eqb_spec j key); [lia|].
+      destruct (nth_error (s_slots st) key) as [[q|f0]|] eqn:Ek; try reflexivity.
+      destruct (I1 key f0 Ek) as [-> _]. unfold disk_set. destruct (Nat.eqb_spec j key); [lia|reflexivity].
+    - destruct (I1 j f Ej) as [-> _].
+      destruct (nth_error (s_slots st) key) as [[q|f0]|] eqn:Ek; try reflexivity.
+      destruct (I1 key f0 Ek) as [-> _]. unfold disk_set. destruct (Nat.eqb_spec j key); [lia|reflexivity].
+  Qed.
+
+  (* a store leaves no superseded file behind: after storing a small tensor the site has no file *)
+  Theorem spill_no_orphan_gen : forall limit key a (st : sstate P),
+    key < List.length (s_slots st) -> spill_inv st -> nbytes a <= limit ->
+    s_disk (setitem nbytes limit key a st) key = None.
+  Proof.
+    intros limit key a st Hk Hinv Hs.
+    destruct (spill_inv_preserved limit key a st Hk Hinv) as [_ J2].
+    destruct (s_disk (setitem nbytes limit key a st) key) eqn:E; [|reflexivity].
+    assert (Hx : s_disk (setitem nbytes limit key a st) key <> None) by (rewrite E; discriminate).
+    specialize (J2 key Hx). unfold setitem, array2mt in J2. cbn [s_slots] in J2.
+    assert (El : Nat.ltb limit (nbytes a) = false) by (apply Nat.ltb_ge; exact Hs). rewrite El in J2. cbn [fst] in J2.
+    rewrite nth_set_slot_same in J2 by exact Hk. discriminate.
+  Qed.
+End SpillProofs.
